@@ -1108,9 +1108,22 @@ func waitingOf(s *verifsim.Sched) []string {
 	if s == nil {
 		return nil
 	}
-	w := s.Waiting()
-	if len(w) > 12 {
-		w = w[:12]
+	// goroutines of processes that are still alive first: they are the ones that wait
+	var live, dead []string
+	for _, x := range s.Waiting() {
+		name := x
+		if i := strings.IndexByte(x, '@'); i >= 0 {
+			name = x[:i]
+		}
+		if s.IsDead(verifsim.NodeOf(name)) {
+			dead = append(dead, x)
+		} else {
+			live = append(live, x)
+		}
+	}
+	w := append(live, dead...)
+	if len(w) > 16 {
+		w = w[:16]
 	}
 	return w
 }
